@@ -15,7 +15,8 @@ declare -A T=(
  [c20-callback]="C20" [c07-offset-whole-curve]="C07" [c07-slope-jump]="C07" [c07-smooth-one-segment]="C07"
  [c08-abs-threshold]="C08" [c08-no-normalisation]="C08"
  [revert-D17-approach-assert]="C17" [revert-D21-maxima-argmin]="C17" [revert-D22-monotony-inf]="C17"
- [revert-D23-options-only-before-first-fit]="C03"
+ [revert-D23-options-only-before-first-fit]="C03" [revert-D24-apply-skips-on-edited-stored-settings]="C03"
+ [revert-D25-negative-zero-hash]="C12" [revert-D18-smoothing-stall]="C07" [revert-D27-params-initial-dropped-without-model-key]="C04"
 )
 for m in $(echo "${!T[@]}" | tr ' ' '\n' | sort); do
   for id in ${T[$m]}; do
